@@ -87,16 +87,47 @@ func c06_1(c *core.Ctx, p *core.Prog) {
 		c.Undecided("anchors", p.Pos(fn.Pos()), core.FuncName(fn), "early_return field not resolved")
 		return
 	}
-	var mk *ssa.MakeChan
+	var mk ssa.Value
+	isRespChan := func(t types.Type) bool {
+		n := core.NamedOf(chanElem(t))
+		return n != nil && n.Obj() == m.countedErr.Obj()
+	}
 	core.EachInstr(fn, func(i ssa.Instruction) {
-		if x, ok := i.(*ssa.MakeChan); ok {
-			if n := core.NamedOf(chanElem(x.Type())); n != nil && n.Obj() == m.countedErr.Obj() {
-				mk = x
+		if x, ok := i.(*ssa.MakeChan); ok && isRespChan(x.Type()) {
+			mk = x
+		}
+		// a same-package helper all of whose returns are a fresh make(chan countedError)
+		if cl, ok := i.(*ssa.Call); ok && mk == nil && isRespChan(cl.Type()) {
+			if callee := cl.Call.StaticCallee(); callee != nil && core.FnPkgPath(callee) == core.CBPPath {
+				fresh := len(core.Returns(callee)) > 0
+				for _, r := range core.Returns(callee) {
+					if len(r.Results) != 1 {
+						fresh = false
+						continue
+					}
+					if _, ok := core.Strip(r.Results[0]).(*ssa.MakeChan); !ok {
+						fresh = false
+					}
+				}
+				if fresh {
+					mk = cl
+				}
 			}
 		}
 	})
 	if mk == nil {
-		c.Viol("respch|create", p.Pos(fn.Pos()), core.FuncName(fn), "no response channel is ever created: callers with early_return off would wait forever or never learn the outcome")
+		// where does the channel stored in the queued request come from?
+		from := "nowhere"
+		core.EachInstr(fn, func(i ssa.Instruction) {
+			st, ok := i.(*ssa.Store)
+			if !ok {
+				return
+			}
+			if fa, ok := st.Addr.(*ssa.FieldAddr); ok && isRespChan(core.FieldVar(fa).Type()) {
+				from = valueLabel(st.Val)
+			}
+		})
+		c.Viol("respch|create", p.Pos(fn.Pos()), core.FuncName(fn), "the response channel stored in the queued request is not freshly made for this request (it comes from "+from+"): a recycled or shared channel delivers the replies meant for an abandoned request to the next caller, or no channel exists and callers with early_return off never learn the outcome")
 		return
 	}
 	conds, g, cx, err := guardAtPos(p, mk.Pos())
@@ -135,7 +166,7 @@ func c06_1(c *core.Ctx, p *core.Prog) {
 		if !ok || chanElem(core.FieldVar(fa).Type()) == nil {
 			return
 		}
-		if core.DerivesFrom(st.Val, func(v ssa.Value) bool { return v == ssa.Value(mk) }) {
+		if core.DerivesFrom(st.Val, func(v ssa.Value) bool { return v == mk }) {
 			travels = true
 		}
 	})
